@@ -99,7 +99,7 @@ def units(tier, seed=0):
         for iswrite in (False, True):
             tag = '%s/%s' % ('priv' if ispriv else 'user', 'w' if iswrite else 'r')
             if tier == 'quick':
-                for n in (0, 2):
+                for n in ((0, 2) if (not ispriv and iswrite) else (0,)):
                     us.append(UnitSpec('sd_walk/N%d/%s' % (n, tag), 'vf.c15', 'mk_sd',
                                        dict(ispriv=ispriv, iswrite=iswrite, n_fixed=n, remap=INJECTIVE, ee_sym=False,
                                             ttbr_mask=0xFFFFFF80),
